@@ -270,6 +270,24 @@ fn scenarios(rng: &mut Rng) -> Vec<Scenario> {
                 let k = kit.clone();
                 out.push(Scenario { name, threads: sizes.len(), make: Box::new(move || decryptor_instance(&k, &cts, &expected)), stress_only: false });
             }
+            // ciphertexts whose trailing polynomial is exactly zero ((a*b + c) - a*b: size 3, last polynomial all zero) next to
+            // ordinary ones: the cache must be grown for the size the ciphertext HAS; expected plaintexts are known by construction
+            {
+                let n = kit.n(); let t = kit.t();
+                let mk = |rng: &mut Rng| -> Vec<u64> { (0..n).map(|_| rng.below(t.min(4))).collect() };
+                let (a, b, c) = (mk(rng), mk(rng), mk(rng));
+                let sp = special_exact(&kit, &a, &b, &c);
+                if let Some(zt) = sp.iter().find(|s| s.name == "zero_tail3") {
+                    let plain2 = mk(rng);
+                    let c2 = kit.enc.encrypt_new(&kit.plain_from_coeffs(&plain2));
+                    for (name, order) in [("decryptor_zero_tail3_and_2", vec![0usize, 1]), ("decryptor_zero_tail3_twice_and_2", vec![0, 0, 1])] {
+                        let cts: Arc<Vec<Ciphertext>> = Arc::new(order.iter().map(|&i| if i == 0 { zt.ct.clone() } else { c2.clone() }).collect());
+                        let expected: Arc<Vec<Vec<u64>>> = Arc::new(order.iter().map(|&i| if i == 0 { zt.coeffs.clone() } else { plain2.clone() }).collect());
+                        let k = kit.clone();
+                        out.push(Scenario { name, threads: order.len(), make: Box::new(move || decryptor_instance(&k, &cts, &expected)), stress_only: false });
+                    }
+                }
+            }
             // shared key generator: relin keys (power 2), Galois keys (0 = no power), explicit powers
             let seqkg = KeyGenerator::from_sk(kit.ctx.clone(), kit.sk.clone());
             seqkg.verif_compute_powers(4);
